@@ -440,6 +440,31 @@ func checkC17(p *Prog, r *Report) {
 							kt = o.Of(cc.Args[2])
 						}
 						ok, why := keyBounded(p, o, fa, x.(ssa.Instruction), kt, boundedFor(fn, kinds, boundedField))
+						if !ok && p.transparent(fn) && calledOnlyFromScope(p, fn, scope) && c != nil {
+							// an extracted helper of a handler: the key derives from the helper's parameters — discharge at each call site,
+							// with the helper's parameters replaced by the caller's arguments
+							callers, _ := p.CallersOf(fn)
+							all, n := true, 0
+							for _, cf := range callers {
+								co := NewOrigin(p, cf)
+								cfa := NewFacts(p, cf, co)
+								for _, ccs := range callSites(cf) {
+									if ccs.Callee == nil || resolveBound(ccs.Callee) != fn {
+										continue
+									}
+									n++
+									sub := co.subOrigin(ccs.Instr, fn)
+									okc, whyc := keyBounded(p, co, cfa, ccs.Instr.(ssa.Instruction), sub.Of(cc.Args[2]), boundedFor(cf, kinds, boundedField))
+									if !okc {
+										all = false
+										why = "at the call in " + FuncName(cf) + ": " + whyc
+									} else {
+										why = "discharged at the call in " + FuncName(cf) + ": " + whyc
+									}
+								}
+							}
+							ok = all && n > 0
+						}
 						r.Check(ok, key, "store accessors (which MustEncode their key) are called only with keys whose components cannot exceed 255 bytes", site, why, why)
 						continue
 					}
